@@ -84,7 +84,7 @@ MMul(a, b) == Up(RMul(a, b))
 
 ---------------------------------------------------------------------------
 (* One part of one case *)
-PartTensor(P, C, cs, part) ==
+PartTensor(P, C, cs, part, pk) ==
   LET cell == P.cell  td == P.tdim  gd == P.gdim
       itype == P.itype
       nsides == IF itype = "interior_facet" THEN 2 ELSE 1
@@ -247,6 +247,9 @@ PartTensor(P, C, cs, part) ==
           [] t.t = "cond" -> IF Cond(t.c, q, i, j) THEN Ev(t.a, q, i, j) ELSE Ev(t.b, q, i, j)
           [] t.t = "max" -> LET a == Ev(t.a, q, i, j)  b == Ev(t.b, q, i, j) IN IF RLt(a[1], b[1]) THEN b ELSE a
           [] t.t = "min" -> LET a == Ev(t.a, q, i, j)  b == Ev(t.b, q, i, j) IN IF RLt(b[1], a[1]) THEN b ELSE a
+          \* transcendental function of an argument-free sub-expression: value supplied per point (libm on the
+          \* exact rational argument, see harness/s5.py function_tables; its rounding is part of the tolerance)
+          [] t.t = "ftab" -> <<R(cs.ftab[pk][t.id][q][1]), R(cs.ftab[pk][t.id][q][2])>>
           [] t.t = "al" -> CReal(AL[t.id][q][IF part.aleaves[t.id].n = 0 THEN i ELSE j])
           [] t.t = "cl" -> CL[t.id][q][1]
           [] t.t = "const" -> <<RInt(cs.c[t.k + 1][t.c + 1][1]), RInt(cs.c[t.k + 1][t.c + 1][2])>>
@@ -272,6 +275,7 @@ PartTensor(P, C, cs, part) ==
           [] t.t \in {"abs", "conj", "real", "imag"} -> EvM(t.a, q)
           [] t.t = "sqrt" -> MAdd(One, EvM(t.a, q))
           [] t.t \in {"cond", "max", "min"} -> RMax(EvM(t.a, q), EvM(t.b, q))
+          [] t.t = "ftab" -> MAdd(One, Up(CMag(<<R(cs.ftab[pk][t.id][q][1]), R(cs.ftab[pk][t.id][q][2])>>)))
           [] t.t = "al" -> ALM[t.id][q]
           [] t.t = "cl" -> CL[t.id][q][2]
           [] t.t = "const" -> Up(CMag(<<RInt(cs.c[t.k + 1][t.c + 1][1]), RInt(cs.c[t.k + 1][t.c + 1][2])>>))
@@ -332,7 +336,7 @@ PartTensor(P, C, cs, part) ==
 
 CaseTensor(c) ==
   LET cs == D.cases[c]  C == D.confs[cs.conf]  P == D.progs[C.prog]
-      parts == [k \in 1..Len(C.parts) |-> PartTensor(P, C, cs, C.parts[k])]
+      parts == [k \in 1..Len(C.parts) |-> PartTensor(P, C, cs, C.parts[k], k)]
       bad == {k \in 1..Len(parts) : parts[k][1] # "ok"}
   IN IF bad # {} THEN <<parts[CHOOSE k \in bad : TRUE][1]>>
      ELSE LET RECURSIVE AE(_)
